@@ -1079,6 +1079,12 @@ def gen_case(r, tier):
         else:
             if TAGS[g]:
                 ops.append({"op": "fault", "tag": r.choice(TAGS[g]), "k": r.randint(0, 6), "kind": r.choice(["raise", "nan"])})
+    if g == "userdef_x":
+        # the user-defined prior itself is drawn from (and the draws edited) at two places of the history
+        sc["components"] = True
+        for _ in range(2):
+            ops.insert(r.randint(0, len(ops)), {"op": "eval", "on": 2, "what": "sample", "how": "kw", "N": r.choice([1, 1, 3]),
+                                                "pick": r.randrange(1000)})
     return {"scenario": sc, "ops": ops}
 
 
